@@ -488,6 +488,10 @@ def expand(hist):
         viols = []
         classes = set()
         label = op_label(op)
+        # look at every variable through VARPTR/PEEK *before* the operation as well, in the same
+        # session: a fault may need an observation, then a change, then another observation
+        # (anything wrong here was already reported when this state was first reached)
+        check_state(s, ref, [], set())
         ok, outcome = run_op(s, ref, op, viols, label)
         key = None
         nvars = 0
